@@ -113,6 +113,25 @@ Definition read_slot (file : list Z) (off : Z) : rdres :=
   let s := slice (nat_of off) hdr_size file in
   if (length s =? hdr_size)%nat then RdOk s else RdEOF.
 
+(* the bytes of the selected header slot *)
+Definition selected_slot (rd : Z -> rdres) : option (list Z) :=
+  match rd 0 with
+  | RdOk s0 =>
+      if valid_slot s0 then
+        match rd (h_pageSize (decode_header s0)) with
+        | RdOk s1 => match choose s0 s1 with
+                     | SelOk a _ => Some (if a =? 0 then s0 else s1)
+                     | SelErr => None
+                     end
+        | _ => None
+        end
+      else match find_second rd 40 minPageSize with
+           | Some (Some s1) => Some s1
+           | _ => None
+           end
+  | _ => None
+  end.
+
 Definition read_valid_meta (file : list Z) : sel :=
   match read_valid_meta_with (read_slot file) with Some r => r | None => SelErr end.
 
